@@ -520,6 +520,13 @@ func runC05(env *Env, s Scenario) {
 			continue
 		}
 		if j := i + 1; j < len(sr.Recs) && !sr.Recs[j].Skipped && !sr.Recs[j].Panicked && sc.Ops[j].Kind != "close" {
+			if sc.Ops[j].TimeoutUS < 0 || sc.Ops[j].ResumeAfterUS > 0 {
+				// (an operation with timeout 0 = maximum waits until the device speaks again, and
+				// the harness lets it speak again: success is the right answer)
+				env.Probe("second-stall-met-an-operation-without-timeout")
+
+				break
+			}
 			env.Probe("second-stall-checked")
 			env.Probe("second-stall-victim:" + sc.Ops[victim].Kind)
 			if sc.Ops[victim].TimeoutUS > 0 && sc.Ops[j].TimeoutUS == 0 {
